@@ -1012,8 +1012,21 @@ class C11(PropertyCheck):
                     if gedges(g) != cur or int(g.V) != V:
                         fail("copy() is not an independent copy of the graph")
                 elif name == "sub":
-                    valid = np.array(arg[:V])
+                    keep01 = np.array(arg[:V])
+                    # the selector as callers hold it: 0/1 integers, booleans, or signed scores / labels of which
+                    # the positive ones are kept ("vertices for which valid > 0")
+                    how = ["int", "bool", "scores", "int", "float"][(int(keep01.sum()) + len(cur) + V) % 5]
+                    if how == "bool":
+                        valid = keep01.astype(bool)
+                    elif how == "scores":
+                        valid = np.where(keep01 > 0, 1 + (np.arange(V) % 3), -(np.arange(V) % 2)).astype(np.int64)
+                    elif how == "float":
+                        valid = np.where(keep01 > 0, 0.5 + (np.arange(V) % 2), -1.5 * (np.arange(V) % 2))
+                    else:
+                        valid = keep01
                     h = g.subgraph(valid)
+                    valid = keep01
+                    label = f"sub[{how}]"
                     vl = f"{V} " + " ".join(str(int(x)) for x in valid)
                     if h is None:
                         add(f"sub {gl} {vl}", "none")
